@@ -7,6 +7,7 @@ extern crate rdp;
 mod common;
 mod io;
 mod shape;
+mod refsrv;
 mod gui;
 mod props;
 
